@@ -4,7 +4,7 @@ import random
 
 from vlib import hist
 from vlib.ctx import proof_gate
-from vlib.term import C, Nat, opt
+from vlib.term import C, Nat, Some, opt
 
 HEADER = "From Coq Require Import ZArith List.\nFrom TV Require Import Common.Harness C19.Model C19.Law C19.Corr."
 CASE_T = "C19.Corr.case"
@@ -18,7 +18,7 @@ EXNS = ["TraitError", "ValueError", "AttributeError", "RuntimeError"]
 
 def st_term(s):
     return C("mkSt", s["x"], (s["t"][0], s["t"][1]), list(s["l"]), [(k, v) for k, v in s["d"]], list(s["s"]),
-             opt(s["f"]), opt(s["m"]), s["p"], opt(s["c"]), s["ad"])
+             opt(s["f"]), opt(s["m"]), s["p"], opt(s["c"]), s["ad"], opt(s["y"]), s["ad2"])
 
 
 def obs_term(o):
@@ -32,33 +32,55 @@ def plan_term(p):
     return C("FaultCall" if p[0] == "call" else "FaultHandler", Nat(p[1]), C(p[2]))
 
 
-def op_term(op, echo):
+def _in_call_order(raw, echo):
+    """`raw` (distinct values to be validated) in the order the implementation's validator saw them; values it never
+    reached (the run stopped earlier) follow in any order: they cannot influence the result."""
+    seen = [v for v in echo if v in raw]
+    out = []
+    for v in seen:
+        if v not in out:
+            out.append(v)
+    return out + [v for v in raw if v not in out]
+
+
+def op_term(op, echo, before):
     k = op[0]
-    if k in ("SetX", "LAppend", "SAdd", "SetP"):
+    if k in ("SetX", "LAppend", "SAdd", "SetP", "SetY"):
         return C(k, op[1])
     if k in ("SetT", "DSetItem", "DSetDefault"):
         return C(k, op[1], op[2])
     if k in ("LAssign", "LExtend", "LIadd", "SUpdate"):
         return C(k, list(op[1]))
     if k == "SAssign":
-        return C(k, list(echo[0]) if echo else list(op[1]))
+        return C(k, _in_call_order(list(dict.fromkeys(op[1])), echo))
+    if k in ("SIxor", "SSymDiff"):
+        raw = list(dict.fromkeys(op[1]))
+        present = [v for v in raw if v in before["s"]]
+        if k == "SSymDiff":        # a list argument: the set built from it is what the method iterates
+            pass
+        return C(k, _in_call_order([v for v in raw if v not in present], echo) + present)
     if k == "LInsert":
         return C(k, Nat(op[1]), op[2])
     if k == "LSetSlice":
         return C(k, Nat(op[1]), Nat(op[2]), list(op[3]))
     if k in ("DAssign", "DUpdate"):
         return C(k, [(a, b) for a, b in op[1]])
-    if k in ("ReadF", "ReadM", "ReadP", "ReadC"):
+    if k in ("ReadF", "ReadM", "ReadP", "ReadC", "ReadY"):
         return C(k)
     if k == "SetAd":
         return C(k, Nat(op[1]), op[2])
+    if k == "SetAd2":
+        return C(k, None if op[1] is None else Some(Nat(op[1])), op[2])
     raise ValueError(op)
 
 
 def to_term(case, obs):
     h = []
+    before = obs["init"]
     for (op, plan), st in zip(case["ops"], obs["steps"]):
-        h.append((op_term(op, st["echo"]), plan_term(plan), bool(st["fired"]), obs_term(st["A"]), obs_term(st["T"])))
+        h.append((op_term(op, st["echo"], before), plan_term(plan), bool(st["fired"]), obs_term(st["A"]),
+                  obs_term(st["T"])))
+        before = st["A"]["st"]
     return (st_term(obs["init"]), obs["reg0"], h)
 
 
@@ -88,6 +110,14 @@ def ncalls(op):
     k = op[0]
     if k in ("SetX", "LAppend", "LInsert", "SAdd", "ReadF", "ReadM", "ReadP", "SetP", "ReadC"):
         return 1
+    if k == "SetY":
+        return 3
+    if k == "ReadY":
+        return 2
+    if k in ("SIxor", "SSymDiff"):
+        return len(op[1])
+    if k == "SetAd2":
+        return op[1] or 0
     if k in ("SetT", "DSetItem", "DSetDefault"):
         return 2
     if k in ("LAssign", "LExtend", "LIadd", "SAssign", "SUpdate"):
@@ -111,9 +141,14 @@ def gen_op(rnd):
 
     k = rnd.choice(["SetX", "SetX", "SetT", "LAssign", "LAppend", "LExtend", "LExtend", "LIadd", "LInsert", "LSetSlice",
                     "DAssign", "DSetItem", "DUpdate", "DUpdate", "DSetDefault", "SAssign", "SAdd", "SUpdate", "SUpdate",
-                    "ReadF", "ReadM", "ReadP", "SetP", "ReadC", "ReadC", "SetAd", "SetAd"])
-    if k in ("SetX", "LAppend", "SAdd"):
+                    "ReadF", "ReadM", "ReadP", "SetP", "ReadC", "ReadC", "SetAd", "SetAd", "SIxor", "SIxor", "SSymDiff",
+                    "SetY", "SetY", "ReadY", "SetAd2", "SetAd2"])
+    if k in ("SetX", "LAppend", "SAdd", "SetY"):
         return [k, item()]
+    if k in ("SIxor", "SSymDiff"):
+        return [k, sorted(set(items(0, 5)))]
+    if k == "SetAd2":
+        return [k, rnd.choice([0, 1, 2, 2, None]), rnd.randint(0, 9)]
     if k == "SetP":
         return [k, rnd.randint(0, 9)]
     if k in ("SetT", "DSetItem", "DSetDefault"):
@@ -164,9 +199,12 @@ TEMPLATES = [["SetX", 5], ["SetX", 1], ["SetX", 101], ["SetT", 3, 4], ["SetT", 3
              ["LSetSlice", 0, 1, [7, 8, 9]], ["LSetSlice", 1, 1, []], ["DAssign", [[1, 2], [3, 4]]], ["DSetItem", 5, 6],
              ["DUpdate", [[1, 2], [3, 4], [1, 5]]], ["DSetDefault", 7, 8], ["DSetDefault", 1, 8],
              ["SAssign", [1, 2, 3]], ["SAdd", 4], ["SUpdate", [1, 2, 3]], ["ReadF"], ["ReadM"], ["ReadP"], ["SetP", 4],
-             ["ReadC"], ["SetAd", 0, 3], ["SetAd", 1, 3], ["SetAd", 2, 3]]
+             ["ReadC"], ["SetAd", 0, 3], ["SetAd", 1, 3], ["SetAd", 2, 3],
+             ["SIxor", [1, 2, 3]], ["SIxor", [1, 5, 100]], ["SSymDiff", [1, 4, 6]], ["SetY", 5], ["SetY", 43], ["SetY", 100],
+             ["ReadY"], ["SetAd2", 0, 3], ["SetAd2", 1, 3], ["SetAd2", 2, 3], ["SetAd2", None, 3]]
 FOLLOW = [["SetX", 6], ["LExtend", [1, 2]], ["DUpdate", [[2, 2]]], ["SUpdate", [5]], ["ReadF"], ["ReadM"], ["ReadC"],
-          ["SetP", 8], ["ReadP"], ["SetAd", 2, 4], ["LSetSlice", 0, 2, [3]]]
+          ["SetP", 8], ["ReadP"], ["SetAd", 2, 4], ["LSetSlice", 0, 2, [3]], ["SIxor", [1, 8]], ["SetY", 7], ["ReadY"],
+          ["SetAd2", 1, 5]]
 
 
 def systematic():
@@ -191,7 +229,7 @@ def run(ctx):
         "modelled, not verified: CPython list/dict/set, the adaptation search (only the order of factory calls along the "
         "found chain matters here; C17 models the search); callbacks are Section variables of the model",
     ]
-    ctx.cov["rule"] = ("systematic part: every operation template (29: scalar/tuple assignment, list/dict/set mutators and "
+    ctx.cov["rule"] = ("systematic part: every operation template (40: scalar/tuple assignment, list/dict/set mutators and "
                        "whole-container assignment, factory and _name_default defaults, property getter/setter, cached "
                        "property, adapter chains of length 0-2) x every deciding-callback ordinal k (incl. one beyond the "
                        "last) x 4 exception classes, and x 5 change handlers x 4 classes, each followed by 11 fault-free "
